@@ -244,6 +244,45 @@ def plant(rng, kind, cmd='cmd'):
         use, extra2 = through_defs('%s<%s>' % (pre, n)) if rng.random() < 0.5 else ('%s<%s>' % (pre, n), [])
         stmts[0] = stmts[0][:-1] + ' ' + use + ';'
         return stmts + extra + extra2 + ['<%s> ::= %s;' % (n, inner)], 'SubwordSpaces', l1
+    if kind == 'subword_spaces_root_refs':
+        # two space-separated items inside a word whose literal edges are only visible through the
+        # definitions of nonterminals referenced in the word itself: p(<A> <B>), p(<A> b), p(a <B>)
+        # (with chain == 0 the word sits in the call variant, which is checked before it is resolved)
+        l1, l2 = f.lit('sp'), f.lit('sp')
+        pre = f.lit('--p') + '='
+        a, b = f.name('RA'), f.name('RB')
+        extra = []
+
+        def define(name, lit, left):
+            # the definition ends (left operand) / starts (right operand) with the literal, possibly
+            # behind one more definition
+            body = lit
+            k = rng.random()
+            if k < 0.25:
+                body = ('%s %s' % (c.cmd(), lit)) if left else ('%s [%s]' % (lit, f.lit()))
+            elif k < 0.5:
+                m = f.name('RD')
+                extra.append('<%s> ::= %s;' % (m, lit))
+                body = '<%s>' % m
+            extra.append('<%s> ::= %s;' % (name, body))
+
+        shape = rng.choice(['rr', 'rl', 'lr'])
+        if shape == 'rr':
+            define(a, l1, True); define(b, l2, False)
+            inner = '<%s> <%s>' % (a, b)
+        elif shape == 'rl':
+            define(a, l1, True)
+            inner = '<%s> %s' % (a, l2)
+        else:
+            define(b, l2, False)
+            inner = '%s <%s>' % (l1, b)
+        w = '%s(%s)' % (pre, inner) if rng.random() < 0.7 else '%s(%s | %s)' % (pre, f.lit('v'), inner)
+        if rng.random() < 0.6:
+            use, extra2 = w, []
+        else:
+            use, extra2 = through_defs(w)
+        stmts[0] = stmts[0][:-1] + ' ' + use + ';'
+        return stmts + extra + extra2, 'SubwordSpaces', l1
     if kind == 'placeholder_not_last':
         u = f.name('U')
         tail = f.lit('tail')
